@@ -235,6 +235,9 @@ pub struct St {
     pub adapter_keys: BTreeMap<usize, Id>,
     pub io_tasks: BTreeMap<Id, crate::adapter::IoTaskM>,
     pub sig: crate::sig::SigGlobal,
+    /// hidden Timer sources inserted by TimeoutFuture: (deadline, fired, task)
+    pub hidden_timers: Vec<(u64, bool, Id)>,
+    pub hidden_unknown: bool,
 }
 
 pub const KEY_SUB_MASK: usize = 0xFFFF;
